@@ -344,8 +344,10 @@ def prefer (a b : Addr) (famFunc : Addr → Bool) : Int :=
 def preferIPv4 (a b : Addr) : Int := prefer a b Addr.is4
 def preferIPv6 (a b : Addr) : Int := prefer a b Addr.is6
 
-/-- a stand-in for `slices.SortFunc` in the driver (insertion sort); the theorems speak
-about *any* function meeting the SORT-1 contract, and show this one does -/
+/-- insertion sort on lists: the witness that the SORT-1 contract is satisfiable
+(`sortBy_contract`).  `sortFunc_order` speaks about *any* function meeting SORT-1; the model of
+the real `slices.SortFunc` is `Slices.sortFunc` in `Go/Sort.lean` (the driver runs that one),
+and `Theorems/C12Sort.lean` proves SORT-1 for it. -/
 def insertBy (cmp : Addr → Addr → Int) (x : Addr) : List Addr → List Addr
   | [] => [x]
   | y :: ys => if cmp x y < 0 then x :: y :: ys else y :: insertBy cmp x ys
